@@ -129,6 +129,8 @@ class Sim(object):
         self.spin_detected = 0
         self.states_seen = set()
         self.state_fn = None
+        # virtual time that passes with every network delivery step (0 = instantaneous network)
+        self.deliver_latency_ns = 0
         install_clock()
 
     # -- helpers
@@ -240,6 +242,8 @@ class Sim(object):
             else:
                 pipe = pipes[0] if self.policy in ('eager', 'rr') else rng.choice(pipes)
                 pipe.deliver(self._deliver_amount(pipe))
+            if self.deliver_latency_ns:
+                self.world.advance_to(self.world.now_ns + self.deliver_latency_ns)
             self._note_state()
             return 'deliver'
 
